@@ -47,8 +47,10 @@ let show_ev tracked e =
   | EDestroy x -> if tracked then Some ("D" ^ o x) else None
   | EUse x -> if tracked then Some ("U" ^ o x) else None
 
+let nodtor_flag = ref false
 let print_evs tracked evs =
-  print_string ("ev" ^ String.concat "" (List.map (fun e -> match show_ev tracked e with Some s -> " " ^ s | None -> "") evs) ^ "\n")
+  let keep e = match e with EDestroy _ -> not !nodtor_flag | _ -> true in
+  print_string ("ev" ^ String.concat "" (List.map (fun e -> match (if keep e then show_ev tracked e else None) with Some s -> " " ^ s | None -> "") evs) ^ "\n")
 
 let show_slot = function Some v -> string_of_n v | None -> "raw"
 let show_slots l = String.concat " " (List.map show_slot l)
@@ -62,7 +64,8 @@ let reg_line k sz em cap (elems : n option list) =
   Printf.printf "r%d %d %d %s | %s | %s | %s %s\n" k sz (if em then 1 else 0) cap s s fr bk
 
 let elem_size cont elem =
-  let e = if elem = "int" || elem = "dbl" || elem = "pod" || elem = "bag" then 8 else if elem = "a64" then 64 else 24 in
+  let e = if elem = "int" || elem = "dbl" || elem = "pod" || elem = "bag" then 8 else if elem = "a64" then 64
+          else if elem = "cur" || elem = "pm" then 16 else 24 in
   if cont = "list" then e + 24 else e
 
 let body lines =
@@ -73,7 +76,8 @@ let body lines =
       | ["type"; c; e] -> c, e, 4
       | ["type"; c; e; n] -> c, e, ios n
       | _ -> "vec", "int", 4 in
-    let tracked = elem = "tv" || elem = "mo" || elem = "a64" in
+    let tracked = elem = "tv" || elem = "mo" || elem = "a64" || elem = "cur" in
+    nodtor_flag := (elem = "cur");       (* no destructor: destroy events are not observable *)
     let veq = veq_of elem in
     let esz_i = elem_size cont elem in
     let esz = n_of_i64 (Int64.of_int esz_i) in
